@@ -52,60 +52,90 @@ def fromstr_rule(F, rep, ty):
                 elif a.get("k") == "Lit" and a.get("lit") == "str" and a["v"] == ".":
                     it = s["pat"]["name"]
     rep.ob("FromStr.split", it is not None, fn, "split", "%s::from_str does not split its input on '.'" % ty)
-    if it is None or tail.get("k") != "Match":
-        rep.cannot("FromStr.shape", fn, L.Unsupported(tail, "body is not `match (i.next(), ...)`"))
+    if it is None:
         return
-    sc = strip(tail["scrut"])
-    nexts = sc.get("elems", []) if sc.get("k") == "Tup" else []
-    all_next = bool(nexts) and all(strip(e).get("k") == "MethodCall" and strip(e)["method"] == "next" and L.local_name(strip(e)["recv"]) == it for e in nexts)
-    rep.ob("FromStr.shape", all_next and len(nexts) == 4, fn, "scrutinee", "%s::from_str must inspect exactly four successive next() results (got %d)" % (ty, len(nexts)))
-    ok_arm, other_err = None, True
-    for a in tail["arms"]:
-        p = a["pat"]
-        if p.get("k") == "Tuple" and len(p["pats"]) == 4:
-            kinds = []
-            names = []
-            for q in p["pats"]:
-                if q.get("k") == "TupleStruct" and (q.get("path") or "").endswith("Some") and q["pats"][0].get("k") == "Bind":
-                    kinds.append("Some")
-                    names.append(q["pats"][0]["name"])
-                elif q.get("k") == "Lit" and (q["e"].get("path") or "").endswith("None"):
-                    kinds.append("None")
-                elif q.get("k") == "Path" and (q.get("path") or "").endswith("None"):
-                    kinds.append("None")
-                else:
-                    kinds.append("?")
-            if kinds == ["Some", "Some", "Some", "None"] and not a.get("guard"):
-                ok_arm = (a, names)
-                continue
-        # every other arm must produce Err
-        body = L.strip_try(a["body"])
-        if not (body.get("k") == "Call" and (declared(body) or "").endswith("Err")):
-            other_err = False
-    rep.ob("FromStr.reject", other_err, fn, "other-arms", "%s::from_str: an arm other than (Some,Some,Some,None) does not return Err" % ty)
-    if ok_arm is None:
-        rep.ob("FromStr.accept", False, fn, "accept-arm", "%s::from_str has no (Some, Some, Some, None) arm" % ty)
+    root = b["tir"]["value"]
+    lets = {x["pat"]["id"]: x for x in tir.walk(root) if x.get("k") == "Let" and x["pat"].get("k") == "Bind" and x.get("init") is not None}
+
+    def is_next_tuple(e):
+        e = strip(e)
+        el = e.get("elems", []) if e.get("k") == "Tup" else []
+        return len(el) if el and all(strip(x).get("k") == "MethodCall" and strip(x)["method"] == "next" and L.local_name(strip(x)["recv"]) == it for x in el) else 0
+
+    def shape(p):
+        """(kinds, names) of a 4-tuple pattern of Some(bind)/None"""
+        if p.get("k") != "Tuple":
+            return None, None
+        kinds, names = [], []
+        for q in p["pats"]:
+            if q.get("k") == "TupleStruct" and (q.get("path") or "").endswith("Some") and q["pats"][0].get("k") == "Bind":
+                kinds.append("Some")
+                names.append(q["pats"][0]["id"])
+            elif (q.get("k") == "Lit" and (q["e"].get("path") or "").endswith("None")) or (q.get("k") == "Path" and (q.get("path") or "").endswith("None")):
+                kinds.append("None")
+            else:
+                kinds.append("?")
+        return kinds, names
+
+    def is_err(e):
+        e = L.strip_try(e)
+        if e.get("k") == "Ret":
+            e = L.strip_try(e.get("e") or {})
+        if e.get("k") == "Block" and not e.get("tail") and len(e.get("stmts", [])) == 1:
+            return is_err(e["stmts"][0].get("e") or {})
+        return e.get("k") == "Call" and (declared(e) or "").endswith("Err")
+
+    n_next = 0
+    names = None
+    accept = None          # the expression evaluated when the shape matches
+    other_err = True
+    for x in tir.walk(root):
+        if x.get("k") == "Match" and is_next_tuple(x["scrut"]):
+            n_next = is_next_tuple(x["scrut"])
+            for a in x["arms"]:
+                kinds, nm = shape(a["pat"])
+                if kinds == ["Some", "Some", "Some", "None"] and not a.get("guard"):
+                    names, accept = nm, a["body"]
+                elif not is_err(a["body"]):
+                    other_err = False
+        elif x.get("k") == "Let" and x.get("els") is not None and is_next_tuple(x.get("init") or {}):
+            n_next = is_next_tuple(x["init"])
+            kinds, nm = shape(x["pat"])
+            if kinds == ["Some", "Some", "Some", "None"]:
+                names = nm
+                accept = root        # the rest of the function
+            if not is_err(x["els"]):
+                other_err = False
+    if not n_next:
+        rep.cannot("FromStr.shape", fn, L.Unsupported(root, "no inspection of successive next() results found"))
         return
-    a, names = ok_arm
-    body = L.strip_try(a["body"])
+    rep.ob("FromStr.shape", n_next == 4, fn, "scrutinee", "%s::from_str must inspect exactly four successive next() results (got %d)" % (ty, n_next))
+    rep.ob("FromStr.reject", other_err, fn, "other-arms", "%s::from_str: a shape other than (Some,Some,Some,None) does not return Err" % ty)
+    if accept is None:
+        rep.ob("FromStr.accept", False, fn, "accept-arm", "%s::from_str has no (Some, Some, Some, None) case" % ty)
+        return
+
+    def component(x, depth=0):
+        """binding id of the string a Version component is parsed from (through `?` and let-bound intermediates)"""
+        is_try = x.get("k") == "Try"
+        y = L.strip_try(x)
+        if y.get("k") == "Path" and y.get("res") == "local" and y.get("id") in lets and depth < 3:
+            return component(lets[y["id"]]["init"], depth + 1)
+        if is_try and y.get("k") == "Call" and (declared(y) or "") == "io::parse_u8":
+            return strip(y["args"][0]).get("id")
+        if is_try and y.get("k") == "MethodCall" and y["method"] == "parse" and (y.get("gargs") or [None])[0] == "u8":
+            return strip(y["recv"]).get("id")
+        return None
+
     good = False
-    detail = tir.pretty(body)[:200]
-    if body.get("k") == "Call" and (declared(body) or "").endswith("Ok"):
-        ctor = strip(body["args"][0])
-        if ctor.get("k") == "Call" and (declared(ctor) or "") == ty and len(ctor["args"]) == 3:
-            comps = []
-            for x in ctor["args"]:
-                x0 = x
-                is_try = x.get("k") == "Try"
-                x = L.strip_try(x)
-                if is_try and x.get("k") == "Call" and (declared(x) or "") == "io::parse_u8":
-                    comps.append(L.local_name(x["args"][0]))
-                elif is_try and x.get("k") == "MethodCall" and x["method"] == "parse" and (x.get("gargs") or [None])[0] == "u8":
-                    comps.append(L.local_name(x["recv"]))
-                else:
-                    comps.append(None)
-            good = comps == names
-            detail = "components parsed from %s, bound names %s" % (comps, names)
+    detail = "no Ok(%s(..)) found" % ty.split("::")[-1]
+    for c in tir.walk(accept):
+        if c.get("k") == "Call" and (declared(c) or "").endswith("Ok") and len(c["args"]) == 1:
+            ctor = strip(c["args"][0])
+            if ctor.get("k") == "Call" and (declared(ctor) or "") == ty and len(ctor["args"]) == 3:
+                comps = [component(a) for a in ctor["args"]]
+                good = comps == names
+                detail = "components parsed from bindings %s, pattern bindings %s" % (comps, names)
     rep.ob("FromStr.accept", good, fn, "accept-arm", "%s::from_str must build Version(parse(a)?, parse(b)?, parse(c)?) in order: %s" % (ty, detail),
            sample={"type": ty, "accept": detail})
 
@@ -118,11 +148,22 @@ def parse_u8_rule(F, rep):
         return
     body = L.strip_try(b["tir"]["value"])
     ok = False
-    if body.get("k") == "MethodCall" and body["method"] == "map_err":
-        r = strip(body["recv"])
-        sname = b["tir"]["params"][0].get("name")
-        if r.get("k") == "MethodCall" and r["method"] == "parse" and (declared(r) or "").endswith("str::<impl str>::parse") and (r.get("gargs") or [None])[0] == "u8" and L.local_name(r["recv"]) == sname:
-            ok = True
+    sname = b["tir"]["params"][0].get("name")
+
+    def is_parse(r):
+        r = strip(r)
+        return r.get("k") == "MethodCall" and r["method"] == "parse" and (declared(r) or "").endswith("str::<impl str>::parse") and (r.get("gargs") or [None])[0] == "u8" and L.local_name(r["recv"]) == sname
+    if body.get("k") == "MethodCall" and body["method"] in ("map_err", "or_else") and is_parse(body["recv"]):
+        ok = True
+    elif body.get("k") == "Match" and is_parse(body["scrut"]) and len(body["arms"]) == 2:
+        good = 0
+        for a in body["arms"]:
+            p, e = a["pat"], L.strip_try(a["body"])
+            if p.get("k") == "TupleStruct" and (p.get("path") or "").endswith("Ok") and p["pats"][0].get("k") == "Bind":
+                good += e.get("k") == "Call" and (declared(e) or "").endswith("Ok") and strip(e["args"][0]).get("id") == p["pats"][0]["id"]
+            elif p.get("k") == "TupleStruct" and (p.get("path") or "").endswith("Err"):
+                good += e.get("k") == "Call" and (declared(e) or "").endswith("Err")
+        ok = good == 2
     rep.ob("FromStr.parse_u8", ok, fn, "body", "parse_u8 must be `s.parse::<u8>()` on the unmodified component with the error mapped, got %s" % tir.pretty(body)[:160])
 
 
